@@ -154,3 +154,13 @@ Proof.
   split; [vm_compute; discriminate|]. split; [cbn; tauto|]. split; [cbn; repeat split; intros; try discriminate; exact I|].
   split; vm_compute; reflexivity.
 Qed.
+
+From V Require Import C03.TreeProofs10.
+(* values_look_the_same_sound_partial is about effectful expressions too: g(x.k, -0) looks the same as itself
+   (and not as g(x.k, 0)); its evaluation logs the getter and the call *)
+Definition ex_vls : expr := ECall (EId 1000 false false) [EDot (EId 1 false false) [107] 0 false false; ENum (Fin true 0 (-1074))] 0 false.
+Example vls_ex :
+  values_look_the_same ex_vls ex_vls = true /\ vls_ok ex_vls /\
+  values_look_the_same ex_vls (ECall (EId 1000 false false) [EDot (EId 1 false false) [107] 0 false false; ENum (Fin false 0 (-1074))] 0 false) = false /\
+  eval Wgood [] ex_vls = Some ([7; 99], Throw (VStr [101])).
+Proof. repeat split; try (vm_compute; reflexivity); cbn; unfold two52; try lia; auto; left; lia. Qed.
